@@ -22,6 +22,8 @@ GROUPS = {
     # scheduler.rs is tied semantically (GenTie/Scheduler); what is NOT translated — the `async move` block of `schedule()`
     # (macro impl_scheduler_method), the spawn macros, remote_handle, new_timer — is pinned here (C19, C02, C08)
     "PinsSched": ["PinSchedulerText"],
+    # subscription.rs / subscriber.rs / observer.rs wholesale (C17, C02, C15)
+    "PinsCore": ["PinSubscriptionText", "PinSubscriberText", "PinObserverText"],
 }
 # groups of which only the items whose NAME matches are pinned (no count theorem then)
 ONLY = {"PinSchedulerText": r"macro impl_scheduler_method|fn remote_handle|macro \w*_spawn|impl Scheduler < T > for|trait Scheduler|fn new_timer"}
